@@ -511,13 +511,27 @@ func (w *World) Apply(op Op) (v *Violation) {
 		w.setWorkingFrom(n)
 		w.Labels["dvf"] = true
 	case "pin":
-		it, err := t.GetImmutable(op.N)
-		if err != nil {
-			return w.viol("pin.getimmutable", "GetImmutable(%d): %v", op.N, err)
-		}
-		ex, err := it.Export()
-		if err != nil {
-			return w.viol("pin.export", "Export of version %d: %v", op.N, err)
+		var ex *iavl.Exporter
+		if op.Flag && len(w.WOps) == 0 && w.Cur == op.N && w.Vers[op.N] != nil {
+			// the export is started on the MutableTree handle itself while it has no uncommitted changes (its tree IS version
+			// N); the first node is fetched at once, so that the traversal has started before the writer goes on
+			e, err := t.Export()
+			if err != nil {
+				return w.viol("pin.export", "Export on the handle that sits on version %d without uncommitted changes: %v", op.N, err)
+			}
+			_, _ = e.Next()
+			ex = e
+			w.Labels["pin_through_the_writer_handle"] = true
+		} else {
+			it, err := t.GetImmutable(op.N)
+			if err != nil {
+				return w.viol("pin.getimmutable", "GetImmutable(%d): %v", op.N, err)
+			}
+			e, err := it.Export()
+			if err != nil {
+				return w.viol("pin.export", "Export of version %d: %v", op.N, err)
+			}
+			ex = e
 		}
 		if w.Pins == nil {
 			w.Pins = map[int64][]*iavl.Exporter{}
